@@ -14,10 +14,13 @@ package main
 
 import (
 	"bytes"
+	"crypto/sha256"
 	"encoding/base64"
 	"encoding/hex"
 	"encoding/json"
 	"fmt"
+	"io"
+	"log"
 	"os"
 	"path/filepath"
 	"reflect"
@@ -220,8 +223,8 @@ var (
 
 // ---------------------------------------------------------------- tokens
 
-func hs(s string) string  { return "s" + hex.EncodeToString([]byte(s)) }
-func hb(b []byte) string  { return "s" + hex.EncodeToString(b) }
+func hs(s string) string { return "s" + hex.EncodeToString([]byte(s)) }
+func hb(b []byte) string { return "s" + hex.EncodeToString(b) }
 func opt(s *string) string {
 	if s == nil {
 		return "-"
@@ -642,6 +645,62 @@ type c12Gen struct {
 	stat  []string
 	files int
 	big   bool
+
+	saver    *generator.GraphSaver // on-disk save path (generator/graph_saver.go), attached to a share of the histories
+	savePath string
+	saves    int
+	maxFile  int
+	shrunk   bool
+}
+
+// a GraphSaver as app_server.go builds it (`&GraphSaver{app: …, savePath: …}`); the fields are unexported
+func c12NewSaver(app *generator.App, path string) *generator.GraphSaver {
+	gs := &generator.GraphSaver{}
+	v := reflect.ValueOf(gs).Elem()
+	set := func(name string, val any) {
+		f := v.FieldByName(name)
+		reflect.NewAt(f.Type(), unsafe.Pointer(f.UnsafeAddr())).Elem().Set(reflect.ValueOf(val))
+	}
+	set("app", app)
+	set("savePath", path)
+	return gs
+}
+
+func c12Digest(b []byte) string {
+	h := sha256.Sum256(b)
+	return strconv.Itoa(len(b)) + " " + hex.EncodeToString(h[:])
+}
+
+// GraphSaver.Save() to the same path as every earlier save of this history, then read the file back:
+// it must be exactly App.Schema() at this moment (also when this save is SMALLER than the previous one)
+func (g *c12Gen) save(full bool) {
+	if g.saver == nil {
+		return
+	}
+	st := Guard(func() string { g.saver.Save(); return "ok" })
+	onDisk, err := os.ReadFile(g.savePath)
+	if err != nil {
+		st = "unreadable"
+	}
+	want := Guard(func() string { return string(g.app.Schema()) })
+	g.saves++
+	if len(onDisk) < g.maxFile {
+		g.shrunk = true
+	}
+	if len(onDisk) > g.maxFile {
+		g.maxFile = len(onDisk)
+	}
+	if full || st != "ok" || want == "panic" {
+		g.c.Emit("c12.holds.file_equals_schema", hs(st)+" full "+hb(onDisk)+" "+hs(want), "true")
+	} else {
+		g.c.Emit("c12.holds.file_equals_schema", hs(st)+" digest "+c12Digest(onDisk)+" "+c12Digest([]byte(want)), "true")
+	}
+}
+
+func (g *c12Gen) afterEdit() {
+	if g.saver != nil && g.c.Rng.Intn(4) != 0 {
+		g.save(false)
+	}
 }
 
 var c12ParamPool = []string{c12Float, c12Float, c12Float, c12String, c12String, c12Int, c12Bool, c12V3, c12V2, c12V3Arr, c12AABB, c12Color, c12File}
@@ -659,7 +718,24 @@ func (g *c12Gen) do(tok string, f func() string) string {
 	g.ops = append(g.ops, tok)
 	g.stat = append(g.stat, st)
 	g.c.Note("op." + strings.SplitN(tok, " ", 2)[0] + "." + st)
+	g.afterEdit()
 	return st
+}
+
+// UpdateParameter with an explicit message; the model receives the value as the implementation reports it afterwards
+func (g *c12Gen) setValue(id string, msg []byte) {
+	canon := ""
+	st := Guard(func() string {
+		if _, err := g.inst.UpdateParameter(id, msg); err != nil {
+			return "err"
+		}
+		canon = string(g.inst.ParameterData(id))
+		return "ok"
+	})
+	g.ops = append(g.ops, "V "+hs(id)+" "+hs(canon))
+	g.stat = append(g.stat, st)
+	g.c.Note("op.V." + st)
+	g.afterEdit()
 }
 
 func (g *c12Gen) pick(pred func(id string) bool) (string, bool) {
@@ -1053,6 +1129,7 @@ func (g *c12Gen) step() {
 		g.ops = append(g.ops, "V "+hs(id)+" "+hs(canon))
 		g.stat = append(g.stat, st)
 		g.c.Note("op.V." + st)
+		g.afterEdit()
 	case k < 78:
 		id, ok := g.pick(func(id string) bool { return g.isParam(id) || r.Intn(30) == 0 })
 		if !ok {
@@ -1193,7 +1270,16 @@ func c12NaturalOrder(c *Ctx) {
 	}
 }
 
+var c12TempDir string
+
 func runC12(c *Ctx) {
+	log.SetOutput(io.Discard) // GraphSaver.Save logs every write
+	dir, err := os.MkdirTemp("", "c12-save-")
+	if err != nil {
+		panic(err)
+	}
+	c12TempDir = dir
+	defer os.RemoveAll(dir)
 	t := newC12Types()
 	c12Less(c)
 	c12NaturalOrder(c)
@@ -1244,6 +1330,13 @@ func c12History(c *Ctx, t *c12Types, i int) {
 			g.use(sa.Nodes[id].Type)
 		}
 		initDump = c12DumpInstance(app)
+	}
+	if i%2 == 0 {
+		// the on-disk path: autosave after (most) edits, always to the same file
+		g.savePath = filepath.Join(c12TempDir, "graph-"+strconv.Itoa(i)+".json")
+		g.saver = c12NewSaver(app, g.savePath)
+		g.save(false)
+		c.Note("shape.autosave")
 	}
 	g.big = i%3 == 0
 	n := []int{0, 1, 3, 8, 20, 40, 70}[r.Intn(7)]
@@ -1315,6 +1408,52 @@ func c12History(c *Ctx, t *c12Types, i int) {
 	for j := 0; j < n; j++ {
 		g.step()
 	}
+	if i%10 == 7 && g.files == 0 {
+		// a File parameter whose payload is set but has length zero (it is the only binary payload, hence the last view)
+		fid := g.create(c12File)
+		if r.Intn(2) == 0 {
+			g.setValue(fid, []byte("not empty"))
+		}
+		g.setValue(fid, []byte{})
+		c.Note("shape.file-param-empty-payload")
+	}
+	if g.saver != nil {
+		// make the document grow, save, then shrink it in each of the ways an editor can, saving after every step
+		sid := g.create(c12String)
+		g.setValue(sid, []byte(*c12J(strings.Repeat("long value ", 40))))
+		g.do("A "+hs(sid)+" "+hs(strings.Repeat("N", 120)), func() string { g.inst.Parameter(sid).SetName(strings.Repeat("N", 120)); return "ok" })
+		g.do("M 2 "+hs("notes")+" "+hs("big")+" L "+hs(*c12J(strings.Repeat("m", 300))), func() string {
+			g.inst.SetMetadata("notes.big", strings.Repeat("m", 300))
+			return "ok"
+		})
+		g.save(false)
+		g.setValue(sid, []byte(`""`))
+		g.save(false)
+		g.do("A "+hs(sid)+" "+hs(""), func() string { g.inst.Parameter(sid).SetName(""); return "ok" })
+		g.save(false)
+		g.do("X 2 "+hs("notes")+" "+hs("big"), func() string { g.inst.DeleteMetadata("notes.big"); return "ok" })
+		g.save(false)
+		if dst, ok := g.pick(func(id string) bool { return len(g.inst.Node(id).Dependencies()) > 0 }); ok && r.Intn(2) == 0 {
+			name := g.inst.Node(dst).Dependencies()[0].Name()
+			g.do("D "+hs(dst)+" "+hs(name), func() string { g.inst.DeleteNodeInputConnection(dst, name); return "ok" })
+			g.save(false)
+		}
+		if !g.dependedOn(sid) {
+			g.do("R "+hs(sid), func() string { g.inst.DeleteNode(sid); return "ok" })
+			for k, o := range g.ids {
+				if o == sid {
+					g.ids = append(g.ids[:k], g.ids[k+1:]...)
+					break
+				}
+			}
+		}
+		g.save(true) // the final save of the history: compared byte for byte
+		g.save(true) // and a repeated save of the unchanged graph
+		if g.shrunk {
+			c.Note("autosave.shrinking-save-seen")
+		}
+		c.Note(fmt.Sprintf("autosave.saves.%s", bucket(g.saves)))
+	}
 	maxArr := 0
 	for _, id := range g.ids {
 		cnt := map[string]int{}
@@ -1356,6 +1495,16 @@ func c12History(c *Ctx, t *c12Types, i int) {
 	if saved == "panic" {
 		c.Emit("c12.holds.save_ok", "false", "true")
 		return
+	}
+	if g.saver != nil {
+		// what gets loaded is the FILE the saver wrote, not the in-memory schema
+		onDisk, err := os.ReadFile(g.savePath)
+		if err != nil {
+			c.Emit("c12.holds.save_ok", "false", "true")
+			return
+		}
+		saved = string(onDisk)
+		os.Remove(g.savePath)
 	}
 	c.Emit("c12.save", req, c12DumpFile([]byte(saved)))
 
